@@ -45,6 +45,9 @@ def parse_amount(amount_str, decimal_separator='.'):
         amount_str = amount_str.replace(',', '')
 
     result = float(amount_str)
+    if result != result or result in (float('inf'), float('-inf')):
+        # float() also accepts 'nan', 'inf', 'infinity' - those are not amounts
+        raise ValueError(f"Not a finite amount: {amount_str}")
     return -result if negative else result
 
 
